@@ -27,6 +27,12 @@ string creator_file(string file) {
   }
   return "Root";
 }
+// virtual objects: names under .../virt/ have no file; the master makes them (C20: an object without euid must not get one made)
+object compile_object(string file) {
+  if (strsrch(file, "virt/") == -1) return 0;
+  vlog("\"e\":\"CompileObject\",\"file\":" + jq(file));
+  return new("/d1/ob");
+}
 string get_root_uid() { return "Root"; }
 string get_bb_uid() { return policy["backbone"] ? policy["backbone"] : "Backbone"; }
 
